@@ -76,6 +76,10 @@ pub struct Scenario {
     /// subject are evaluated and formatted); a subscriber must not change what the solver does
     #[serde(default)]
     pub trace_subscriber: bool,
+    /// x/8: a request of a kind that yields is nevertheless answered at once (decided per request from the schedule
+    /// seed, the kind and the argument) - a provider that has part of its metadata at hand
+    #[serde(default)]
+    pub immediate_p: u8,
 }
 
 #[derive(Clone, Debug, PartialEq, Serialize, Deserialize)]
@@ -173,6 +177,7 @@ impl Scenario {
             repeat: 0,
             token_repr: 0,
             trace_subscriber: false,
+            immediate_p: 0,
         }
     }
 }
@@ -594,6 +599,8 @@ pub fn make_core(sc: &Scenario) -> Rc<SimCore> {
         batch_p: sc.batch_p,
         spurious_p: sc.spurious_p,
         token_repr: sc.token_repr,
+        immediate_p: sc.immediate_p,
+        immediate_salt: sc.sched_seed,
     })
 }
 
